@@ -1,5 +1,6 @@
 import Driver.Arith
 import Driver.Activation
+import Driver.Gas
 /-! Line-protocol driver: one request per line on stdin, one reply per line on stdout.
 Stateless components are dispatched on the first token. A stateful component `X` adds a field
 `x : Driver.X.St := Driver.X.St.init` to `DState`, resets it on `begin x …` and threads it through
@@ -8,12 +9,15 @@ open Driver
 
 structure DState where
   unit : Unit := ()
+  gas : Driver.Gas.St := Driver.Gas.St.init
   -- stateful component states go here
 
 def step (st : DState) (line : String) : DState × String :=
   match line.trimAscii.toString.splitOn " " with
   | "arith" :: r => (st, Arith.handle r)
   | "activation" :: r => (st, Activation.handle r)
+  | "begin" :: "gas" :: r => let (s, out) := Driver.Gas.begin r; ({ st with gas := s }, out)
+  | "gas" :: r => let (s, out) := Driver.Gas.handle st.gas r; ({ st with gas := s }, out)
   | _ => (st, "bad-op")
 
 partial def loop (hin hout : IO.FS.Stream) (st : DState) : IO Unit := do
